@@ -1,0 +1,14 @@
+//go:build verif
+
+package types
+
+// Contracts for the verification machinery in /verif (comment-only file; no code).
+
+// ---- genesis validation returns an error (never panics) and establishes that every pair lists a denomination: the
+// module invariant pairsHaveDenoms that the registry operations assume (C12, C13, C15) ----
+// (that no contract and no denomination belongs to two pairs is checked with Go maps, which the replay of the repaired
+// defect exercises; only the part below is proved)
+// verif:func (GenesisState).Validate
+//@ nopanic
+//@ loop 1 invariant [so-far] forall j int :: 0 <= j && j < idx1 ==> len(gs.TokenPairs[j].Denoms) >= 1
+//@ ensures [pairs-have-denoms] result == nil ==> forall j int :: 0 <= j && j < len(gs.TokenPairs) ==> len(gs.TokenPairs[j].Denoms) >= 1
